@@ -356,36 +356,106 @@ def rand_spec(rng, pool, sup, nmax=4, bypass_p=0.12, hastag_p=0.93):
 EPS = [[(0, 12)], [(1, 5)], [(3, 5), (9, 11)], [], [(0, 4), (6, 12)], [(2, 3)], [(4, 10)]]
 
 
-def rand_op(rng, nkeys_hint, keypool):
+class Shadow:
+    """generator-side bookkeeping of the current keys / tags / support, used ONLY to draw operations that mostly succeed
+    (it shapes the input distribution; it is not an oracle: a wrong guess just yields an operation that raises on both sides)"""
+
+    def __init__(self, spec):
+        try:
+            ik = [int(k) for k, _ in spec.keys]
+        except Exception:
+            ik = []
+        self.tags = dict(zip(ik, spec.tags))
+        self.keys = sorted(self.tags)
+        self.hastag = spec.hastag
+        self.sup = None if spec.sup is None else tuple(spec.sup)
+
+    def apply(self, op, aux):
+        k = op[0]
+        if k == "keys":
+            if all(x in self.keys for x in op[1]) and len(set(op[1])) == len(op[1]):
+                self.keys = sorted(op[1])
+        elif k == "mask":
+            if len(op[1]) == len(self.keys):
+                self.keys = [x for x, m in zip(self.keys, op[1]) if m]
+        elif k in ("thr", "cat", "int") and self.hastag:
+            tg = [self.tags.get(x, 0) for x in self.keys]
+            if k == "thr":
+                f = {0: lambda x: x > op[2], 1: lambda x: x < op[2], 2: lambda x: x >= op[2], 3: lambda x: x <= op[2]}[op[1]]
+                self.keys = [x for x, t in zip(self.keys, tg) if f(t)]
+            elif k == "cat":
+                sel = [x for x, t in zip(self.keys, tg) if t == op[1]]
+                self.keys = sel or self.keys
+            else:
+                cl = [[x for x, t in zip(self.keys, tg) if op[1][i] <= t < op[1][i + 1]] for i in range(len(op[1]) - 1)]
+                cl = [c for c in cl if c]
+                if op[2] < len(cl):
+                    self.keys = cl[op[2]]
+        elif k == "restrict":
+            self.sup = tuple(op[1])
+        elif k == "rt":
+            self.hastag = False
+        elif k == "msplit":
+            if len(op[1]) == len(self.keys) == len(op[2]):
+                a = [x for x, m in zip(self.keys, op[1]) if m]
+                b = [x for x, m in zip(self.keys, op[2]) if m]
+                if op[3]:
+                    self.keys = list(range(len(a) + len(b)))
+                    self.tags = {}
+                elif not set(a) & set(b):
+                    self.keys = sorted(a + b)
+                else:
+                    return
+                if op[5]:
+                    self.hastag = False
+        elif k == "mwith":
+            ok = (op[4] or self.hastag == aux.hastag) and (op[3] or (self.sup is not None and self.sup == aux.sup))
+            if ok and op[2]:
+                self.keys = list(range(len(self.keys) + len(aux.keys)))
+                self.tags = {}
+            elif ok and not set(self.keys) & set(aux.keys):
+                self.keys = sorted(self.keys + aux.keys)
+                self.tags.update(aux.tags)
+            else:
+                return
+            if op[4]:
+                self.hastag = False
+
+
+def rand_op(rng, sh, keypool):
     r = rng.random()
     fl = lambda p: int(rng.random() < p)
+    n = len(sh.keys)
+    tg = sorted(set(sh.tags.get(x, 0) for x in sh.keys)) or [0]
     if r < 0.14:
-        ks = [rng.choice(keypool) for _ in range(rng.randint(0, 3))]
+        if rng.random() < 0.8 and n:
+            ks = rng.sample(sh.keys, rng.randint(0, min(3, n)))
+        else:
+            ks = [rng.choice(keypool) for _ in range(rng.randint(0, 3))]
         return ("keys", ks)
     if r < 0.26:
-        n = nkeys_hint if rng.random() < 0.9 else nkeys_hint + 1
-        return ("mask", [fl(0.6) for _ in range(n)])
+        m = n if rng.random() < 0.92 else n + 1
+        return ("mask", [fl(0.7) for _ in range(m)])
     if r < 0.36:
         return ("thr", rng.randrange(4), rng.randrange(4))
     if r < 0.43:
-        return ("cat", rng.randrange(4))
+        return ("cat", rng.choice(tg) if rng.random() < 0.85 else rng.randrange(4))
     if r < 0.50:
-        return ("int", rng.choice([[0, 2, 4], [1, 2, 3], [0, 1], [2, 5, 7], [0, 4]]), rng.randrange(2))
-    if r < 0.64:
+        return ("int", rng.choice([[0, 2, 4], [1, 2, 3], [0, 1], [2, 5, 7], [0, 4]]), 0 if rng.random() < 0.7 else 1)
+    if r < 0.62:
         return ("restrict", sci(rng.choice(EPS)))
-    if r < 0.74:
+    if r < 0.72:
         a, b = rng.randrange(-1, 13), rng.randrange(-1, 13)
-        if rng.random() < 0.9 and a > b:
+        if rng.random() < 0.93 and a > b:
             a, b = b, a
         return ("get", a * U, b * U)
-    if r < 0.82:
+    if r < 0.80:
         return ("rt",)
-    if r < 0.91:
-        n = nkeys_hint
+    if r < 0.90:
         m1 = [fl(0.5) for _ in range(n)]
-        m2 = [1 - x if rng.random() < 0.85 else x for x in m1]
-        return ("msplit", m1, m2, fl(0.25), fl(0.3), fl(0.5))
-    return ("mwith", fl(0.5), fl(0.3), fl(0.4), fl(0.5))
+        m2 = [1 - x if rng.random() < 0.9 else x for x in m1]
+        return ("msplit", m1, m2, fl(0.2), fl(0.3), fl(0.5))
+    return ("mwith", fl(0.5), fl(0.25), fl(0.35), fl(0.5))
 
 
 def op_args(op):
@@ -580,7 +650,7 @@ def history_cases(tier, seed):
     rng = random.Random(seed * 7 + 12)
     out = []
     for c in range(700 if tier == "quick" else 7000):
-        sup = rng.choice([[(0, 12)], [(0, 12)], [(1, 5)], [(3, 5), (9, 11)], None, None, [(0, 4), (6, 12)]])
+        sup = rng.choice([[(0, 12)], [(0, 12)], [(0, 12)], [(1, 5)], [(3, 5), (9, 11)], None, [(0, 4), (6, 12)]])
         base = rand_spec(rng, KEYS, None if sup is None else sci(sup))
         r = rng.random()
         asup = sup if r < 0.6 else rng.choice(SUPS)
@@ -590,10 +660,13 @@ def history_cases(tier, seed):
         if base.hastag and rng.random() < 0.9:
             aux.hastag = True
         n = len(base.members)
-        pool = [int(k) for k, _ in KEYS] + [1, 9, 4, 8, 99] + list(range(6))
+        pool = [int(k) for k, _ in base.keys] * 4 + [int(k) for k, _ in KEYS] + [1, 9, 4, 8, 99] + list(range(4))
         ops = []
+        sh, sha = Shadow(base), Shadow(aux)
         for _ in range(rng.randint(1, 6)):
-            ops.append(rand_op(rng, n, pool))
+            o = rand_op(rng, sh, pool)
+            ops.append(o)
+            sh.apply(o, sha)
         out.append((base, aux, ops))
     return out
 
@@ -635,6 +708,7 @@ def run_history(nap, res, base, aux, ops, line):
         res.count("op_" + op[0])
         if st2 is None:
             res.count("op_raised")
+            res.count("raised_" + op[0])
             nerr += 1
         step_oracle(res, op, st, st2, aux_st, dict(inp, step=i), within)
         if not states_agree(st2, mo):
@@ -871,19 +945,50 @@ def search(res, seed):
 
 
 def replay(payload):
+    """re-run the recorded construction / history / merge on the current tree and print both sides"""
     nap = _nap()
     warnings.simplefilter("ignore")
     v = payload.get("violation") or (payload.get("disagreements") or [{}])[0]
     inp = v.get("input", {})
     print("replay input:", inp)
-    if v.get("key", {}).get("op") == "merge_group" and v.get("key", {}).get("part") == "exception":
-        g1 = nap.TsGroup({5: nap.Ts(G.arr([0, 2 * U])), 7: nap.Ts(G.arr([0, 2 * U]))})
-        g2 = nap.TsGroup({0: nap.Ts(G.arr([0, U, 2 * U])), 2: nap.Ts(G.arr([0, 2 * U]))})
+
+    def spec_of(d):
+        keys = []
+        for r in d["keys"]:
+            k = eval(r, {"__builtins__": {}}, {})
+            code = (2, 0) if not isinstance(k, (int, float, str)) else None
+            if code is None:
+                try:
+                    code = ((1 if isinstance(k, str) else 3 if isinstance(k, float) else 0), int(k)) if float(k) == int(k) else (4, int(k))
+                except Exception:
+                    code = (2, 0)
+            keys.append((k, code))
+        return Spec(keys, d["tags"], [(k, t, None if s_ is None else [tuple(x) for x in s_]) for k, t, s_ in d["members"]],
+                    None if d["support"] is None else [tuple(x) for x in d["support"]], d["bypass_check"], islist=d.get("list_input", False))
+    res = C.Result()
+    if "base" in inp:
+        b, a = spec_of(inp["base"]), spec_of(inp["aux"])
+        ops = [tuple(o) for o in inp["ops"]]
+        line = C.run_model(["\t".join(["hist"] + b.args() + a.args() + [x for o in ops for x in op_args(o)])], driver="driver_c12")[0]
+        run_history(nap, res, b, a, ops, line)
+    elif "groups" in inp:
+        specs = [spec_of(d) for d in inp["groups"]]
+        gs = [sp.build(nap)[0] for sp in specs]
         try:
-            r = g1.merge(g2)
-            print("merge of keys {5,7} with {0,2}: keys", list(r.keys()))
-            return 0
+            r = nap.TsGroup.merge_group(*gs, reset_index=bool(inp["reset_index"]), reset_time_support=bool(inp["reset_time_support"]), ignore_metadata=bool(inp["ignore_metadata"]))
+            print("merged keys", list(r.keys()))
         except Exception as ex:
-            print("merge of keys {5,7} with {0,2} (same support, disjoint keys) raised", repr(ex), "; expected keys [0, 2, 5, 7]")
+            print("merge_group raised", repr(ex))
             return 1
-    return 1
+        return 0
+    elif "keys" in inp and "members" in inp:
+        sp = spec_of(inp)
+        line = C.run_model(["\t".join(["mk"] + sp.args())], driver="driver_c12")[0]
+        check_construction(nap, res, sp, line, "replay")
+    for x in res.violations:
+        print("VIOLATION", x["key"], x["what"], "impl:", x.get("impl"), "expected:", x.get("expected"))
+    for x in res.disagreements:
+        print("DISAGREEMENT", x.get("op"), "impl:", x.get("impl"), "model:", x.get("model"))
+    if not res.violations and not res.disagreements:
+        print("no violation / disagreement on the current tree")
+    return 1 if (res.violations or res.disagreements) else 0
